@@ -174,6 +174,8 @@ def render(prog: list, variant: int = 0, mode: str = "visit") -> Rendered:
                 stmt, path = (f"from . import {n}", ["pk", n]) if rel else (f"from zz import {n}", ["zz", n])
             elif x == "fromas":
                 stmt, path = (f"from .sub import orig as {n}", ["pk", "sub", "orig"]) if rel else (f"from zz import orig as {n}", ["zz", "orig"])
+            elif x == "rel":
+                stmt, path = f"from . import {n}", ["pk", n]      # only in pk/__init__.py (mode "loadinit")
             elif x == "multi":
                 stmt, path = f"import {n}, {other(n)}", None
                 info["paths"] = {n: [n], other(n): [other(n)]}
